@@ -285,6 +285,12 @@ func (se *SessionExecutor) getPlan(reqCtx *util.RequestContext, ns *Namespace, d
 		return nil, fmt.Errorf("parse sql error, sql: %s, err: %v", sql, err)
 	}
 
+	// the plan is built from this tree, whatever Preview made of the text
+	// ("/*!40101 -- x */ delete from t" is a DELETE): a read-only user may not run it if it writes
+	if isSQLNotAllowedByUser(se, stmtTypeOfNode(n)) {
+		return nil, fmt.Errorf("write DML is now allowed by read user")
+	}
+
 	var hintPlan plan.Plan
 	if checkHint {
 		//TODO: 获取 token 没有处理 `/* !mycat:sql=` hint，所以需要在这里处理下
